@@ -294,6 +294,12 @@ def check_finishers(ctx, cfg):
                                 and any(y[0] == "P" and y[1] == recv[1] for y in x.args if isinstance(y, tuple) and y)]
                     if mine and after and not lp.breaks and not refilled:
                         evidence = "dominated by the None exit of a loop driven by the iterator's own %s (None exactly when nothing is left: C06.S), which cannot be left any other way" % lp.nxt.fn.split("::")[-1]
+            if evidence is None and is_forget and c.targs[0]["def"].split("::")[-1] == "GenericArrayIter":
+                # the provided try_fold / try_rfold on self with an uninhabited residual is that same loop (std: `while let Some(x) = self.next()`)
+                for nm_ in ("fold", "rfold"):
+                    pv_ = c06.provided_try_fold(db, a, nm_)
+                    if pv_ is not None and a.dominates(pv_[0].bb, c.bb):
+                        evidence = "dominated by the provided %s over the iterator's own primitive with a residual that cannot exist: it returns only when nothing is left" % pv_[0].fn.split("::")[-1]
             if evidence is None and loc is not None:
                 # extend(&mut owner, X.into_iter()) with len(X) == N proven
                 for e in a.calls:
@@ -372,6 +378,10 @@ def bare_generic(t, depth=0):
     if k == "tuple":
         return any(bare_generic(x, depth + 1) for x in t["ts"])
     if k == "alias":
+        if t.get("def", "").endswith("ArrayLength::ArrayType"):
+            # <N as ArrayLength>::ArrayType<X>: the storage of N values of X (N is a length, not data) - real elements only if X has them
+            xs = [x for x in t.get("args", []) if x.get("k") not in ("region", "const", "cparam")]
+            return len(xs) < 2 or bare_generic(xs[1], depth + 1)
         return True
     return False
 
